@@ -40,7 +40,7 @@ func (c04) Cases(tier string, seed uint64) []fw.Case {
 	r := fw.NewRng(seed ^ 0xC04)
 	var cases []fw.Case
 	for i := 0; i < n; i++ {
-		pl := c01.Payload{Seed: r.Next(), Size: 6 + r.Intn(14), Preset: "main"}
+		pl := c01.Payload{Seed: r.Next(), Size: 6 + r.Intn(14), Preset: "shared"}
 		pr, _ := c01.Build(pl)
 		cases = append(cases, fw.MkCase(fmt.Sprintf("c04-gen-%d", i), "gen", pl, prog.Hazards(pr)...))
 	}
@@ -82,7 +82,8 @@ func Compare(src map[string]string, entry string, treeBudget int64) (why, sig st
 	tr := drive.RunTree(ao.Modules, src, entry, drive.TreeOpts{StepBudget: treeBudget})
 	ao2 := drive.Analyze(src, entry, true) // fresh analysis for the VM (nothing shared)
 	vm := drive.RunVM(ao2.Modules, src, entry, drive.VMOpts{})
-	te, ve := tr.Log.Render(), vm.Log.Render()
+	// the property compares the output (text written); singleton loads are host calls of the VM only
+	te, ve := tr.Log.Output(), vm.Log.Output()
 	// singleton loads are host effects only the VM produces through LoadSingleton at init
 	nontrivial = strings.Count(ve, "\n") >= 3
 	if tr.Outcome.Class == "go-panic" {
